@@ -247,7 +247,7 @@ def run(tier, seed, only=None):
     from props import groups
     from openaerostruct.aerodynamics.functionals import VLMFunctionals
 
-    for lab, over in (("viscous, wave", dict(with_viscous=True, with_wave=True)), ("wave only", dict(with_viscous=False, with_wave=True))):
+    for lab, over in (("viscous, wave", dict(with_viscous=True, with_wave=True)), ("wave only", dict(with_viscous=np.False_, with_wave=np.True_))):
         sg = K.surface(2, 3, True, **over)
         groups.wiring_check(rep, lambda sg=sg: VLMFunctionals(surface=sg), "VLMFunctionals(%s)" % lab,
                             "every drag estimate is evaluated on the group's own variables of the same name (lift coefficient, geometry, flow)", timeout)
